@@ -393,12 +393,69 @@ func short(s string) string {
 
 // diff returns the first hard difference, or else the first spare-only difference, or nil.
 func diff(a, b *node) *difference {
+	if same(a, b) {
+		return nil // the common case: no path strings are built
+	}
 	var soft *difference
 	d := diffRec(a, b, "", &soft)
 	if d != nil {
 		return d
 	}
 	return soft
+}
+
+// same reports whether two snapshot trees are identical in everything diffRec looks at
+// (including spare capacity).
+func same(a, b *node) bool {
+	if a == b {
+		return true
+	}
+	if a == nil || b == nil || a.k != b.k {
+		return false
+	}
+	switch a.k {
+	case nNil, nTrunc:
+		return true
+	case nBool, nInt, nUint, nFunc, nBackref:
+		return a.u == b.u
+	case nFloat:
+		return a.f == b.f || (a.f != a.f && b.f != b.f)
+	case nComplex, nString:
+		return a.s == b.s
+	case nOther:
+		return a.p == b.p
+	case nIntSlice:
+		if a.u != b.u || a.c != b.c || a.p != b.p || len(a.ints) != len(b.ints) {
+			return false
+		}
+		for i := range a.ints {
+			if a.ints[i] != b.ints[i] {
+				return false
+			}
+		}
+		return true
+	case nSlice, nMap, nPtr:
+		if a.u != b.u || a.c != b.c || a.p != b.p {
+			return false
+		}
+	case nIface, nObs:
+		if a.s != b.s {
+			return false
+		}
+	case nStruct:
+		if a.t != b.t {
+			return false
+		}
+	}
+	if len(a.kids) != len(b.kids) {
+		return false
+	}
+	for i := range a.kids {
+		if !same(a.kids[i], b.kids[i]) {
+			return false
+		}
+	}
+	return true
 }
 
 func diffRec(a, b *node, path string, soft **difference) *difference {
